@@ -273,7 +273,7 @@ def gen_case(rnd, ctx, maxlen, allow_cyclic):
     ops = []
     pending = None
     # object variants of the driver (the property does not distinguish them): one object in about eight has its
-    # list trait l0 DELEGATED to a private model object, one in about twelve rejects values for s1 with a
+    # list trait `items` DELEGATED to a private model object, one in about twelve rejects values for s1 with a
     # ValueError subclass instead of TraitError
     variant = ["plain"] * nobj
     rv = rnd.random()
